@@ -73,6 +73,7 @@ let eval (op : string) (args : string list) : string * string =
   | "cgt" -> same (b2s (is_all_gt (c 0) (c 1)))
   | "canygte" -> same (b2s (is_any_gte (c 0) (c 1)))
   | "cequal" -> same (ob (coins_equal (c 0) (c 1)))
+  | "cnew" -> same (oc (new_coins (c 0)))
   | "czero" -> same (b2s (coins_is_zero (c 0)))
   | _ -> ("?unknown-op", "=")
 
